@@ -67,6 +67,11 @@ func (p *entityPool) Recycle(e Entity) {
 
 // Reset recycles all entities. Does NOT free the reserved memory.
 func (p *entityPool) Reset() {
+	// Invalidate the released slots. Alive reads the backing array directly,
+	// so handles issued before the reset would otherwise still be reported as alive.
+	for i := int(p.reserved); i < len(p.entities); i++ {
+		p.entities[i].gen = math.MaxUint32
+	}
 	p.entities = p.entities[:p.reserved]
 	p.next = 0
 	p.available = 0
